@@ -797,10 +797,14 @@ def _float16_case(case, spec, mech):
         case.note('axis2_float16_statistics_overflow_half_precision')
         return
     if np.array_equal(o16['npix'], o64['npix']):
+        # Half precision is below what the documentation (or the property: float32 is the narrowest float it names)
+        # speaks of, and the box statistics then accumulate in float16: the deviation from the float64 computation is
+        # recorded (max_deviation) but not judged (seen at thorough seed 5: one mesh cell -153 against -4.4).
         for k in ('mesh', 'rmesh', 'bkg', 'rms'):
-            case.close(_fl(o16[k]), _fl(o64[k]), 'float16_vs_float64_' + k, rtol=4e-3, atol=4e-3 * sc,
-                       mech=dict(mech, dtype='float16'))
-        case.note('axis2_float16_judged')
+            a, b = _fl(o16[k]), _fl(o64[k])
+            with np.errstate(invalid='ignore'):
+                case.dev('float16_vs_float64_' + k + '_over_scale', float(np.nanmax(np.abs(a - b))) / max(sc, 1e-300))
+        case.note('axis2_float16_recorded_not_judged')
     else:
         case.note('axis2_float16_clip_difference_at_half_precision')
 
@@ -871,6 +875,19 @@ def _int_inside(specs, info):
                 return None
             raise
         cur = {k: (_fl(of[k]) >= info.min - 0.5) & (_fl(of[k]) <= info.max + 0.5) for k in ('mesh', 'rmesh', 'bkg', 'rms')}
+        # the integer path casts the box statistics BEFORE the median filter: an unfiltered statistic outside the
+        # range (e.g. a mode estimate 3*median - 2*mean of 260 for uint8) wraps and then spreads through the filter
+        # window although the filtered float-path value is inside the range (seen at thorough seed 5) -> the
+        # unfiltered float-path statistics decide for the whole mesh
+        try:
+            ou = scenes.outputs(scenes.construct(dict(sp, data=sp['data'].astype(np.float64), fsize=1)))
+            for k in ('mesh', 'rmesh'):
+                fu = _fl(ou[k])
+                fu = fu[np.isfinite(fu)]
+                if fu.size and not ((fu >= info.min - 0.5) & (fu <= info.max + 0.5)).all():
+                    cur[k] = np.zeros_like(cur[k])
+        except ValueError:
+            pass
         inside = cur if inside is None else {k: inside[k] & cur[k] for k in cur}
     # a mesh value outside the range spoils the spline around it: judge the maps only if all meshes are inside
     if not (inside['mesh'].all() and inside['rmesh'].all()):
@@ -964,7 +981,7 @@ def _rel_constant(case, spec, meta, nraw, N, mech, is_int):
                 # an unclipped spline over a mesh that is off by one count overshoots the mesh range (by design)
                 case.note('constant_int_map_skipped_unclipped_spline')
                 continue
-            case.close(_fl(obs), np.full(np.shape(obs), val), 'constant_' + name + '_int_within_one', atol=1.0, mech=m)
+            case.close(_fl(obs), np.full(np.shape(obs), val), 'constant_' + name + '_int_within_one', atol=1.0 + 1e-9, mech=m)
         ok = all(bool(np.all(_fl(obs) == val)) for name, obs, val in exp)
         case.check(ok, 'constant_int_exact', dict(mech, int_cast_truncates_interpolated=True), const=c_eff,
                    mesh=o['mesh'])
